@@ -593,6 +593,7 @@ func (e *explorer) runPath(in *Interp, solver *Solver, item workItem) {
 	in.curFr = nil
 	in.mutexes = map[*Value]int{}
 	in.syncMaps = nil
+	in.fs = nil
 	ex.setModel(item.model)
 	status, msg := "ok", ""
 	func() {
